@@ -152,11 +152,25 @@ theorem readSqref_written (rs : List Range) (h : RangesOK rs) : readSqref (sqref
       intro t ht
       obtain ⟨x, _, rfl⟩ := List.mem_map.1 ht
       exact blank_free_print x)]
+    have hf : ((ρ :: r).map Range.print).filter (fun p => !p.isEmpty) = (ρ :: r).map Range.print := by
+      apply List.filter_eq_self.2
+      intro p hp
+      obtain ⟨x, hx, rfl⟩ := List.mem_map.1 hp
+      have := print_ne_nil x (h x hx).1 (h x hx).2
+      cases hq : x.print with
+      | nil => exact absurd hq this
+      | cons a q => rfl
+    rw [hf]
     simpa using pushRanges_print (ρ :: r) [] h
 
-theorem setSqref_text (rs : List Range) (h : RangesOK rs) (hne : rs ≠ []) : setSqref [] (sqrefText rs) = .ok rs := by
-  have := readSqref_written rs h
-  simpa [sqrefAttr, sqrefText_ne_nil rs h hne, readSqref] using this
+/-- the text `get_sqref` gives reads back as the same ranges — none included: the empty text is no range
+    (fix 13062503) -/
+theorem setSqref_text (rs : List Range) (h : RangesOK rs) : setSqref [] (sqrefText rs) = .ok rs := by
+  cases rs with
+  | nil => decide
+  | cons ρ r =>
+    have := readSqref_written (ρ :: r) h
+    simpa [sqrefAttr, sqrefText_ne_nil (ρ :: r) h (by simp), readSqref] using this
 
 /-! ### formula children -/
 
